@@ -15,7 +15,7 @@ for p in $(python3 -c "import json;print(' '.join(c['property_id'] for c in json
   tmp=$(mktemp)
   ./check $p > $tmp 2>&1; rc=$?
   echo "$p rc=$rc $(grep -c '^VIOLATION' $tmp) violation(s)" >> $log
-  if [ $rc -ne 0 ]; then grep -B1 "^VIOLATION" $tmp | grep -v "^VIOLATION" | grep -v "^--" | cut -c1-600 >> $log; grep "CHECKER ERROR" $tmp | head -3 >> $log; fi
+  if [ $rc -ne 0 ]; then grep -B1 "^VIOLATION" $tmp | grep -v "^VIOLATION" | grep -v "^--" | cut -c1-1500 >> $log; grep "CHECKER ERROR" $tmp | head -3 >> $log; fi
   rm -f $tmp
 done
 git -C ${VERIF_DIR:-/verif} checkout -- evidence 2>/dev/null
